@@ -29,8 +29,9 @@ AuxDefs ==
    Empty |-> <<>>,
    Sub   |-> <<Sc("q", "f32"), Sc("w", "i32")>>,
    Lst   |-> <<[Sc("xs", "u16") EXCEPT !.rep = TRUE], Sc("t", "u8")>>,
-   Big   |-> <<[F0 EXCEPT !.k = "fix", !.name = "a", !.n = 150], [F0 EXCEPT !.k = "fix", !.name = "b", !.n = 150, !.pad = "z"]>>]
-AuxNames == <<"A", "B", "Empty", "Sub", "Lst", "Big">>
+   Big   |-> <<[F0 EXCEPT !.k = "fix", !.name = "a", !.n = 150], [F0 EXCEPT !.k = "fix", !.name = "b", !.n = 150, !.pad = "z"]>>,
+   WithObj |-> <<[F0 EXCEPT !.k = "obj", !.name = "Sub", !.ty = "Sub"], [F0 EXCEPT !.k = "obj", !.name = "subs", !.ty = "Sub", !.rep = TRUE], Sc("z", "u8")>>]
+AuxNames == <<"A", "B", "Empty", "Sub", "Lst", "Big", "WithObj">>
 
 MetaDefs ==
   << [name |-> "Code",  k |-> "fix",   ty |-> "",    n |-> 6, pad |-> "z",    ref |-> "",     doc |-> "code"],
@@ -58,6 +59,12 @@ DynCells(i) == { Cell("dyn" \o (IF r THEN ":rep" ELSE ""), <<[F0 EXCEPT !.k = "d
 ObjCells(i) ==
      { Cell("obj:sametype" \o (IF r THEN ":rep" ELSE ""), <<[F0 EXCEPT !.k = "obj", !.name = "Sub", !.ty = "Sub", !.rep = r]>>, {"Sub"}, FALSE) : r \in Reps }
 \cup { Cell("obj:named" \o (IF r THEN ":rep" ELSE ""), <<[F0 EXCEPT !.k = "obj", !.name = Nm("One", i), !.ty = "Sub", !.rep = r]>>, {"Sub"}, FALSE) : r \in Reps }
+\* an empty packet as a member / list element, followed by another field
+\cup { Cell("obj:empty" \o (IF r THEN ":rep" ELSE ""), <<[F0 EXCEPT !.k = "obj", !.name = Nm("e", i), !.ty = "Empty", !.rep = r], Sc(Nm("after", i), "u16")>>, {"Empty"}, FALSE) : r \in Reps }
+\* an inline object followed by a referenced object, and the other way round
+\cup { Cell("obj:inlthenref", <<[F0 EXCEPT !.k = "inl", !.name = Nm("Leg", i), !.fs = <<Sc("p", "u16")>>], [F0 EXCEPT !.k = "obj", !.name = "Sub", !.ty = "Sub"],
+                                [F0 EXCEPT !.k = "obj", !.name = Nm("others", i), !.ty = "Sub", !.rep = TRUE]>>, {"Sub"}, FALSE) }
+\cup { Cell("obj:refinsideinl", <<[F0 EXCEPT !.k = "inl", !.name = Nm("Leg", i), !.fs = <<Sc("p", "u16"), [F0 EXCEPT !.k = "obj", !.name = "Sub", !.ty = "Sub"]>>], Sc(Nm("after", i), "u8")>>, {"Sub"}, FALSE) }
 \cup { Cell("obj:withlist", <<[F0 EXCEPT !.k = "obj", !.name = Nm("Ls", i), !.ty = "Lst"]>>, {"Lst"}, FALSE) }
 \cup { Cell("obj:listoflists", <<[F0 EXCEPT !.k = "obj", !.name = Nm("Ls", i), !.ty = "Lst", !.rep = TRUE]>>, {"Lst"}, FALSE) }
 \cup { Cell("inl:d1" \o (IF r THEN ":rep" ELSE ""),
@@ -71,6 +78,10 @@ MetaCells(i) ==
 \* two fields sharing one MetaData type, one of them carrying its own padding attribute
 \cup { Cell("meta:shared:" \o pad, <<[F0 EXCEPT !.k = "meta", !.name = Nm("ma", i), !.ty = "Name", !.pad = pad],
                                       [F0 EXCEPT !.k = "meta", !.name = Nm("mb", i), !.ty = "Name"]>>, {}, TRUE) : pad \in {"l0", "rnul"} }
+\* the same with a MetaData type that already carries a padding object of its own (zchar)
+\cup { Cell("meta:sharedz:" \o pad, <<[F0 EXCEPT !.k = "meta", !.name = Nm("za", i), !.ty = "Code", !.pad = pad],
+                                       [F0 EXCEPT !.k = "meta", !.name = Nm("zb", i), !.ty = "Code"],
+                                       [F0 EXCEPT !.k = "meta", !.name = Nm("zc", i), !.ty = "Alias", !.rep = TRUE]>>, {}, TRUE) : pad \in {"l0", "rsp"} }
 
 \* match tables: key field kind x table form
 KeyLits(kty) ==  \* three key literals with their canonical bytes for key type kty
@@ -87,15 +98,18 @@ Tables(kty) == LET K == KeyLits(kty) IN
    two      |-> << Pair(<<K[1]>>, "A"), Pair(<<K[2]>>, "B") >>,
    list     |-> << Pair(<<K[1], K[2]>>, "A"), Pair(<<K[3]>>, "B") >>,
    sameTgt  |-> << Pair(<<K[1], K[2]>>, "A"), Pair(<<K[3]>>, "A") >>,
-   payloads |-> << Pair(<<K[1]>>, "Empty"), Pair(<<K[2]>>, "Lst"), Pair(<<K[3]>>, "Big") >>]
+   payloads |-> << Pair(<<K[1]>>, "Empty"), Pair(<<K[2]>>, "Lst"), Pair(<<K[3]>>, "Big") >>,
+   objpayload |-> << Pair(<<K[1]>>, "WithObj"), Pair(<<K[2]>>, "A") >>]
 KeyField(i, kty) == IF kty = "string" THEN [F0 EXCEPT !.k = "dyn", !.name = Nm("key", i)]
                     ELSE IF kty = "char4" THEN [F0 EXCEPT !.k = "fix", !.name = Nm("key", i), !.n = 4]
                     ELSE Sc(Nm("key", i), kty)
-AuxOf(tbl) == {tbl[j].pkt : j \in 1..Len(tbl)}
+AuxOf(tbl) == {tbl[j].pkt : j \in 1..Len(tbl)} \cup (IF \E j \in 1..Len(tbl) : tbl[j].pkt = "WithObj" THEN {"Sub"} ELSE {})
 MatchF(i, tbl) == [F0 EXCEPT !.k = "match", !.name = Nm("body", i), !.key = Nm("key", i), !.pairs = tbl]
 MatchCells(i) == { LET tbl == Tables(kty)[form] IN
                    Cell("match:" \o kty \o ":" \o form, <<KeyField(i, kty), MatchF(i, tbl)>>, AuxOf(tbl), FALSE) :
                      kty \in {"u8", "u16", "u32", "u64", "i32", "string", "char4"}, form \in {"one", "two", "list", "sameTgt", "payloads"} }
+                 \cup { LET tbl == Tables(kty)["objpayload"] IN
+                        Cell("match:" \o kty \o ":objpayload", <<KeyField(i, kty), MatchF(i, tbl)>>, AuxOf(tbl), FALSE) : kty \in {"u16", "string"} }
 
 \* length-of: only in the root packet, at most one per program (Validate.tla), so only at position 1
 LenCells(i) == IF i # 1 THEN {} ELSE
@@ -136,7 +150,8 @@ Cells(i) == UNION { Family(fam, i) : fam \in CellFacet }
 (* -------------------------------- options ------------------------------- *)
 O(le, sp, ap, pl, pc) == [le |-> le, sp |-> sp, ap |-> ap, padleft |-> pl, padchar |-> pc, pkgs |-> "set"]
 OptFew == { O("", "", "", "", ""), O("true", "", "", "", ""), O("false", "u8", "u32", "", ""),
-            O("true", "u32", "u8", "", ""), O("", "u64", "u64", "true", "0"), O("true", "", "", "false", "sp") }
+            O("true", "u32", "u8", "", ""), O("", "u64", "u64", "true", "0"), O("true", "", "", "false", "sp"),
+            O("true", "u64", "u64", "", "") }
 OptAll == { O(le, sp, ap, "", "") : le \in {"", "true"}, sp \in {"", "u8", "u16", "u32", "u64"}, ap \in {"", "u8", "u16", "u32", "u64"} }
           \cup { O(le, "", "", pl, pc) : le \in {"", "true"}, pl \in {"", "true", "false"}, pc \in {"", "0", "sp"} }
 OptChoices == IF OptFacet = "all" THEN OptAll ELSE IF OptFacet = "one" THEN {O("", "", "", "", "")} ELSE OptFew
